@@ -1180,7 +1180,22 @@ def oracle_c06_seq(case, obs):
         if o == "refused-but-wrote":
             out.append("refused-record-left-bytes | sequence")
     if ex["closed"] != "ok":
-        out.append("close-failed | %s" % ex["closed"])
+        # structural signature: the perturbed slots of the records that were accepted (scheme class <- object class, value kind)
+        pairs = []
+        cols = SP.layout(case["annot"])["columns"]
+        for r, o in zip(case["records"], ex["outcomes"]):
+            if o != "accepted" or "slots" not in r:
+                continue
+            for i in r.get("hit", []):
+                sl = r["slots"][i] if i < len(r["slots"]) else None
+                if sl is not None and i < len(cols):
+                    pairs.append("%s<-%s:%s" % (_name(_spec_of_descr(cols[i][1])), _name(sl["cls"]), sl["value"][0]))
+        # a record with the recorded subclass substitution makes close() fail whatever else the sequence holds:
+        # it is the cause, the other perturbed records are not named
+        certain = [p for p in pairs if p == "UUIDColumn<-NullableUUIDColumn:0"]
+        if certain:
+            pairs = certain
+        out.append("close-failed%s | %s" % (("/" + ",".join(sorted(set(pairs)))) if pairs else "", ex["closed"]))
         return out
     if ex["n_data_lines"] != acc:
         out.append("output-line-count-differs-from-accepted-records | %d lines, %d accepted (sort=%s)" % (ex["n_data_lines"], acc, case["sort"]))
